@@ -14,9 +14,17 @@ Containers == {"struct", "seqof", "setof", "explicit", "optional"}
 Wraps1 == {<<w>> : w \in Containers}
 Wraps2 == {<<a, b>> : a \in Containers, b \in Containers}
 
+\* time forms: 30 and 90 minutes on either side of 1 January 00:00 (as written); offsets of an hour either way (the
+\* 30-minute forms straddle the year boundary, the 90-minute forms do not), the largest offsets in use (-12:00,
+\* +14:00: every form on one side straddles), a half-hour zone, and "Z"
+MCTimeMinutes == {-90, -30, 30, 90}
+MCTimeOffsets == {-720, -60, 0, 60, 330, 840}
+MCTimeOffsetsSmall == {-60, 0, 60}
+ASSUME StraddleClasses = {<<2050, 2049>>, <<2049, 2050>>, <<1950, 1949>>, <<1949, 1950>>}
+
 \* the type catalogue (plain and inside every container) is printed once
 ASSUME \A s \in ShapeNames : \A w \in {x \in Wraps \cup {<<>>} : WrapAllOK(x, Shapes[s])} :
           PrintT(<<"SHAPE", ToJson([name |-> s, wrap |-> w, tree |-> WrapAll(w, Shapes[s])])>>)
 
-Export == PrintT(<<"CASE", ToJson([c |-> c, e |-> Verdict(c)])>>)
+Export == PrintT(<<"CASE", ToJson([c |-> c, e |-> vd])>>)
 =============================================================================
